@@ -149,6 +149,8 @@ class Gen:
                 self.new_file(moddir + [D(n), MOD])
                 self.errors += 1
             if style == "cfgattr":
+                if fid is not None:
+                    self.facts[fid][0] = False         # a skipped default next to a candidate is shape W2: dedicated stream
                 self.nondefault += 1
                 k = r.randint(10, 14)
                 q = r.choice([[R(k)], [D(k), R(k)], [D(k), MOD]])
@@ -206,6 +208,8 @@ class Gen:
             body = [["other"]] if r.random() < 0.7 else []        # `mod tests { .. }`: the heuristic may fire, harmlessly
         else:
             body = self.items(nd, None, fdepth, idepth + 1, False)
+            if any(x[0] != "other" for x in body):     # keep the exists() heuristic of push_inline_mod_directory harmless
+                self.add_dirs(nd + [0])
         return ["inline", n, a, body]
 
     def items(self, cdir, crel, fdepth, idepth, incfg, lo=0, hi=3):
